@@ -6398,8 +6398,7 @@ fn eval_expr(
                     ExpressionState::EvaluatedSubexpressions,
                     Rc::clone(&outer_expr),
                 );
-                eval_match_cases(env, expr_value_is_used, &scrutinee.position, cases)
-                    .map_err(|e| (RestoreValues(vec![]), e))?;
+                eval_match_cases(env, expr_value_is_used, &scrutinee.position, cases)?;
             }
             ExpressionState::EvaluatedSubexpressions => {
                 env.current_frame_mut().bindings.pop_block();
@@ -7647,11 +7646,30 @@ fn eval_match_cases(
     expr_value_is_used: bool,
     scrutinee_pos: &Position,
     cases: &[(Pattern, Block)],
-) -> Result<(), EvalError> {
+) -> Result<(), (RestoreValues, EvalError)> {
     let scrutinee_value = env
         .pop_value()
         .expect("Popped an empty value stack for match");
 
+    // If no case can be evaluated, restore the scrutinee so the
+    // `match` can be resumed.
+    eval_match_cases_on(
+        env,
+        expr_value_is_used,
+        scrutinee_pos,
+        cases,
+        &scrutinee_value,
+    )
+    .map_err(|e| (RestoreValues(vec![scrutinee_value.clone()]), e))
+}
+
+fn eval_match_cases_on(
+    env: &mut Env,
+    expr_value_is_used: bool,
+    scrutinee_pos: &Position,
+    cases: &[(Pattern, Block)],
+    scrutinee_value: &Value,
+) -> Result<(), EvalError> {
     let Value_::EnumVariant {
         type_name: value_type_name,
         variant_idx: value_variant_idx,
@@ -7661,7 +7679,7 @@ fn eval_match_cases(
     else {
         let msg = ErrorMessage(vec![Text(format!(
             "Expected an enum value, but got {}: {}",
-            Type::from_value(&scrutinee_value),
+            Type::from_value(scrutinee_value),
             scrutinee_value.display(env)
         ))]);
         return Err(EvalError::Exception(ExceptionInfo {
